@@ -495,6 +495,11 @@ func genRequest(r *rand.Rand, g *group, tcp bool) (*Case, int) {
 	if r.Intn(2) == 0 {
 		c.Entry2 = "routable"
 	}
+	// the generated-server entry point binds with the route's reflective binder: a third of the requests, half of those
+	// to formData operations (whose parameter binder is a second place that looks at the request's media type)
+	if r.Intn(3) == 0 || (c.FormParam && r.Intn(4) == 0) {
+		c.RouteBinder = true
+	}
 	if len(g.spec) > 0 && !g.global {
 		if len(c.Consumes) == 0 {
 			// an operation without a list of its own inherits the spec-level one
